@@ -438,7 +438,6 @@ fn generate(name: &str, text: &str) -> String {
             writeln!(o, "        crate::grel::skip_type_is_atomic::<typed_{}::generics::Skipped<'static>>();", v).unwrap();
             for r in &cfg.skip_body_check {
                 writeln!(o, "        crate::grel::skip_body_is_atomic::<<typed_{v}::rules::{r}<'static, 0> as pest_typed::RuleStruct<'static, typed_{v}::Rule>>::Inner>();", v = v, r = r).unwrap();
-                writeln!(o, "        crate::grel::skip_body_is_atomic::<<typed_{v}::rules::{r}<'static, 1> as pest_typed::RuleStruct<'static, typed_{v}::Rule>>::Inner>();", v = v, r = r).unwrap();
             }
         }
         writeln!(o, "    }}").unwrap();
